@@ -2469,6 +2469,10 @@ class Model:
                 source_popsize = par.source_popsize(ti)
                 if source_popsize:
                     converted_frac = converted_amt / source_popsize
+                    if np.isinf(converted_frac) and np.isfinite(converted_amt):
+                        # The source compartments hold so few people (denormal sizes) that the fraction overflows.
+                        # An infinite fraction would turn into inf*0=NaN flows when the outflows are rescaled
+                        converted_frac = np.finfo(float).max
                 else:
                     converted_frac = 0.0
 
